@@ -45,6 +45,10 @@ def main():
         if r.returncode != 0:
             print(r.stdout)
             return 2
+    head = sh(["git", "-C", "/repo", "rev-parse", "HEAD"]).stdout.strip()
+    sh(["git", "-C", repo, "checkout", "--", "."])
+    sh(["git", "-C", repo, "clean", "-fdq", "--", "src", "tests", "examples", "benches", "build.rs"])
+    sh(["git", "-C", repo, "checkout", "-q", "--detach", head])
     if not os.path.exists(os.path.join(repo, "Cargo.lock")):
         sh(["cp", "/repo/Cargo.lock", os.path.join(repo, "Cargo.lock")])
     first = not os.path.isdir(verif)
